@@ -4,13 +4,17 @@ From Verif Require Import Base.Prelude Base.Wire Model.GroupMap Extract.Drv17.
 
 (* one entry per node whose Options field the harness can read back from the exported tree:
    a literal token (spelled as a boundary assertion) that is not inside a comment -> [0; stamp],
-   a capturing group -> [1; stamp] *)
+   a capturing group -> [1; stamp], a back-reference -> [2; stamp].
+   RegexNode.reduce (tree.go:474-477) clears IgnoreCase on every node except back-references, so
+   that bit is only compared on those. *)
+Definition no_i (o : Z) : Z := Z.ldiff o opt_i.
 Fixpoint e_stamps (ts : list gtok) (sts : list ostate) (its : list item) : list Z :=
   match ts, sts, its with
   | tok :: ts', st :: sts', it :: its' =>
       (match tok, it with
-       | TLit _, INone => [0; o_opts st]
-       | _, ICapture _ => [1; o_opts st]
+       | TLit _, INone => [0; no_i (o_opts st)]
+       | _, ICapture _ => [1; no_i (o_opts st)]
+       | _, IRef _ => [2; o_opts st]
        | _, _ => []
        end) ++ e_stamps ts' sts' its'
   | _, _, _ => []
